@@ -18,6 +18,9 @@ def fill (n seed : Nat) : Bytes := (List.range n).map (fillByte seed)
 
 def mkBlock (typ n seed : Nat) : Bytes := encTL typ ++ encTL n ++ fill n seed
 
+/-- harness/c11 `BlockForm`: T in the `tf`-byte form, L in the `lf`-byte form (not necessarily shortest) -/
+def mkBlockForm (typ tf n lf seed : Nat) : Bytes := encTLForm tf typ ++ encTLForm lf n ++ fill n seed
+
 /-- listener legs: a block that is an Interest (harness/c11 `InterestBlock`) -/
 def mkInterestBlock (n seed : Nat) : Bytes :=
   let comp := mkBlock 8 n seed
@@ -196,6 +199,19 @@ def stepC11 (d : DSt) (op : String) (got : String) : StepResult DSt :=
       { st := d', expected := some "ok", spec := crash,
         cov := [s!"blk-T{tlLen t}-L{tlLen n}"] ++ (if b.length = maxPkt then ["blk-maxsize"] else []) }
     | _, _, _ => { st := d, expected := some "bad-op" }
+  | ["blkf", t, tf, n, lf, sd] =>
+    if d.kind == .none || d.lis || d.kind == .sockS || d.kind == .appS then { st := d, expected := some "skip" } else
+    match t.toNat?, tf.toNat?, n.toNat?, lf.toNat?, sd.toNat? with
+    | some t, some tf, some n, some lf, some sd =>
+      if !(decide (formFits tf t) && decide (formFits lf n)) then { st := d, expected := some "skip" } else
+      let b := mkBlockForm t tf n lf sd
+      let d' := { d with stream := d.stream ++ b, expect := d.expect ++ [(b.length, digest b)],
+                         undelivered := d.undelivered + b.length }
+      { st := d', expected := some "ok", spec := crash,
+        cov := [s!"blkf-T{tf}-L{lf}"] ++ (if tf != tlLen t then ["blkf-T-not-shortest"] else []) ++
+               (if lf != tlLen n then ["blkf-L-not-shortest"] else []) ++
+               (if b.length = maxPkt then ["blk-maxsize"] else []) }
+    | _, _, _, _, _ => { st := d, expected := some "bad-op" }
   | ["rs", n] =>
     -- application side, SEND: the same Wire value is passed to StreamFace.Send twice (a retransmitted Interest,
     -- a cached Data served again): the stream carries the block twice — Send must not consume its argument
